@@ -241,6 +241,20 @@ class C10(Prop):
         for _ in range(300 if tier == "quick" else 3000):
             n = rng.choice([rng.randint(0, 64), rng.randint(0, 2000)] + ([rng.randint(2000, 65507)] if tier == "thorough" else []))
             add(rng.choice([b"", b"\0\1", b"\0\3", b"\0\5", b"\0\6"]) + bytes(rng.getrandbits(8) for _ in range(n)))
+        # directed: long, valid, non-ASCII UTF-8 strings in every string field (ERROR message, file name, mode, option name/value), with a
+        # 2-, 3- or 4-byte character straddling every offset around the lengths at which an implementation might cut or bound a string
+        limits = [8, 16, 32, 64, 80, 100, 127, 128, 200, 255, 256, 400, 500, 508, 512] + ([1000, 1024, 2048, 4096] if tier == "thorough" else [])
+        chars = ["\u00e9".encode(), "\u20ac".encode(), "\U0001d11e".encode()]
+        for lim in limits:
+            for ch in chars:
+                for off in range(max(0, lim - 4), lim + 1):
+                    msg = b"a" * off + ch * 2 + b"z" * 3
+                    add(b"\0\5\0" + bytes([rng.randint(0, 7)]) + msg + b"\0")
+                    if tier == "thorough" or off % 2 == 0:
+                        add(b"\0\1" + msg + b"\0octet\0")
+                        add(b"\0\2f\0" + msg + b"\0")
+                        add(b"\0\6" + msg + b"\0" + b"1\0")
+                        add(b"\0\1f\0octet\0blksize\0" + msg + b"\0")
         return lines
 
     def search(self, rng, around):
